@@ -472,7 +472,7 @@ def _task16(arg):
                 continue
             for ip in ips:
                 for frac in fracs[:7]:
-                    for L in ('', ' ', 'a', '5', '12', '-', '+'):
+                    for L in ('', ' ', 'a', '5', '12', '-', '+', ' -', 'a+', 'x.-'):     # (a sign directly after a digit is a digit prefix: outside what C15/C16 state for the extensible forms)
                         t = L + ip + '.' + frac + ' '
                         cnt['candidates'] += 1
                         for m, a, b in pe.get_matches_and_pos(t):
@@ -487,7 +487,7 @@ def _task16(arg):
                                               f"p = {dctor(variant, lo, hi, mn, mx, True)}\nt = {t!r}\n"
                                               f"assert all(a == 0 or not t[a - 1].isdigit() for m, a, b in p.get_matches_and_pos(t))"))
             # documented for include_sign=True: a signed decimal cannot match when another digit directly precedes the sign
-            if variant == 'DecimalSigned':
+            if variant in ('DecimalSigned', 'PositiveDecimal', 'NegativeDecimal'):
                 for ip in ips[:8]:
                     for frac in fracs[1:4]:
                         for sg2 in '+-':
